@@ -10,6 +10,7 @@ import (
 	auctionsV2types "github.com/comdex-official/comdex/x/auctionsV2/types"
 	collectortypes "github.com/comdex-official/comdex/x/collector/types"
 	liquidationtypes "github.com/comdex-official/comdex/x/liquidationsV2/types"
+	vaulttypes "github.com/comdex-official/comdex/x/vault/types"
 	sdk "github.com/cosmos/cosmos-sdk/types"
 )
 
@@ -510,6 +511,9 @@ func (k Keeper) TriggerEsm(ctx sdk.Context, auctionData types.Auction, liquidati
 		//updating token minted
 		//updating collateral locked data
 		k.vault.UpdateTokenMintedAmountLockerMapping(ctx, auctionData.AppId, liquidationData.ExtendedPairId, tokensToBurn, false)
+	} else {
+		//the vault is re-opened with the uncollected part of the penalty on top of its debt, the published total follows the vault
+		k.vault.UpdateTokenMintedAmountLockerMapping(ctx, auctionData.AppId, liquidationData.ExtendedPairId, liquidationData.FeeToBeCollected.Sub(debtCollected.Amount), true)
 	}
 
 	err := k.bankKeeper.SendCoinsFromModuleToModule(ctx, auctionsV2types.ModuleName, collectortypes.ModuleName, sdk.NewCoins(tokensToTransfer))
@@ -527,11 +531,30 @@ func (k Keeper) TriggerEsm(ctx sdk.Context, auctionData types.Auction, liquidati
 	//TODO
 	//check if a vault exists
 	//if yes update params of the current vault
+	// the unsold collateral backs the re-opened vault: it returns to vault custody
+	if auctionData.CollateralToken.Amount.GT(sdk.ZeroInt()) {
+		err = k.bankKeeper.SendCoinsFromModuleToModule(ctx, auctionsV2types.ModuleName, vaulttypes.ModuleName, sdk.NewCoins(auctionData.CollateralToken))
+		if err != nil {
+			return err
+		}
+	}
 	err = k.vault.CreateNewVault(ctx, liquidationData.Owner, auctionData.AppId, liquidationData.ExtendedPairId, auctionData.CollateralToken.Amount, auctionData.DebtToken.Amount)
 	if err != nil {
 		return err
 	}
 	k.vault.UpdateCollateralLockedAmountLockerMapping(ctx, auctionData.AppId, liquidationData.ExtendedPairId, collateralAuctioned, false)
+
+	// the auction is settled: close it and drop the locked vault, otherwise it is settled again in the next block
+	auctionHistoricalData := auctionsV2types.AuctionHistorical{AuctionId: auctionData.AuctionId, AuctionHistorical: &auctionData, LockedVault: &liquidationData}
+	err = k.SetAuctionHistorical(ctx, auctionHistoricalData)
+	if err != nil {
+		return err
+	}
+	err = k.DeleteAuction(ctx, auctionData)
+	if err != nil {
+		return err
+	}
+	k.LiquidationsV2.DeleteLockedVault(ctx, auctionData.AppId, liquidationData.LockedVaultId)
 
 	return nil
 
